@@ -1432,8 +1432,12 @@ class Collection(object):
             doc_id = doc['_id']
             if isinstance(doc_id, dict):
                 doc_id = helpers.hashdict(doc_id)
-            del self._store[doc_id]
-            deleted_count += 1
+            try:
+                del self._store[doc_id]
+                deleted_count += 1
+            except KeyError:
+                # Already removed by another thread (a concurrent delete or TTL expiry).
+                pass
             if not multi:
                 break
 
